@@ -2,9 +2,15 @@
 import QKV.Drv.QRecJson
 open Lean QKV QKV.Drv
 
-/-- the stated exception: both operands are most-negative two's-complement codes -/
+/-- the stated exception, read for every signed kind (Props.C16.IsMostNeg) -/
 def mostNeg (q : QRec) (v : Rat) : Bool :=
-  q.mode = 0 && q.signed && decide (v = (fixedLo q.bits q.signed : Rat) * pow2 (fixedLsb q.bits q.intBits q.signed))
+  q.signed &&
+  match q.mode with
+  | 0 => decide (v = (fixedLo q.bits true : Rat) * pow2 (fixedLsb q.bits q.intBits true))
+  | 1 => decide (v = - pow2 (po2MaxExpRaw q))
+  | 2 => decide (v = -1)
+  | 3 => decide (v = -1)
+  | _ => false
 
 def handle (j : Json) : Except String Json := do
   let op ← getStr j "op"
